@@ -277,6 +277,30 @@ impl AcquisitionLedger {
         }
     }
 
+    /// Rescale the share counts of all lots for a SPLIT (multiply) or UNSPLIT (divide).
+    ///
+    /// Each lot's total cost is unchanged, so the unit price moves the other way.
+    pub fn apply_split(&mut self, ratio: Decimal, is_unsplit: bool) {
+        if ratio == Decimal::ZERO {
+            return;
+        }
+        for lot in &mut self.lots {
+            if is_unsplit {
+                lot.original_amount /= ratio;
+                lot.consumed /= ratio;
+                lot.reserved /= ratio;
+                lot.in_pool /= ratio;
+                lot.price *= ratio;
+            } else {
+                lot.original_amount *= ratio;
+                lot.consumed *= ratio;
+                lot.reserved *= ratio;
+                lot.in_pool *= ratio;
+                lot.price /= ratio;
+            }
+        }
+    }
+
     /// Get all lots.
     pub fn lots(&self) -> &[AcquisitionLot] {
         &self.lots
